@@ -24,12 +24,35 @@ def to_impl(case):
 
 
 def to_model(case):
-    return P.to_model_request(case['cfg'], case['files'], case.get('start', 0), case.get('end'), case.get('fill', 0))
+    """[structured program, the very source text]: the second request goes through the Lean front end (Model/Parse)"""
+    files = render(case)
+    return [P.to_model_request(case['cfg'], case['files'], case.get('start', 0), case.get('end'), case.get('fill', 0)),
+            P.to_text_request(case['cfg'], list(files.items()), case.get('start', 0), case.get('end'), case.get('fill', 0))]
 
 
-def base_judge(case, ir, mr, tags=None):
+def split(mrs):
+    return (mrs[0], mrs[1]) if isinstance(mrs, list) else (mrs, None)
+
+
+def text_route_disagrees(case, mr, mt):
+    """model-side tie: the rendered text, parsed by the model's front end, is the program the structured route assembles"""
+    if mt is None or mt.get('err') == 'badDirective' and 'err' in mr:
+        return None
+    if ('err' in mr) != ('err' in mt) or mr.get('image') != mt.get('image'):
+        return {'verdict': Verdict.CORR, 'tags': ['text-route-differs'],
+                'detail': f'model front end: text route {mt.get("err") or mt.get("image")} != structured route '
+                          f'{mr.get("err") or mr.get("image")}; files={render(case)!r}'[:1600]}
+    return None
+
+
+def base_judge(case, ir, mr, tags=None, mt=None):
     """returns (verdict dict or None if agree, actual bytes, info)"""
     tags = tags if tags is not None else []
+    bad = text_route_disagrees(case, mr, mt)
+    if bad:
+        return bad, None, bad['detail']
+    if mt is not None:
+        tags.append('text-route=structured-route')
     files = render(case)
     det = f'start={case.get("start", 0)} end={case.get("end")} fill={case.get("fill", 0)} files={files!r}'[:1500]
     actual = impl.fbytes(ir, 'out.bin') if ir['status'] == 'ok' else None
